@@ -8,22 +8,28 @@ Differences from the base `Sched.run`:
   * an entry can release a *burst* of parked entities in one go (they then run in release order inside the
     same event-loop iteration - the `asyncio.gather` situation);
   * after every entry the loop is brought to quiescence and `snapshot()` is recorded, so the observations
-    line up one-to-one with the effective trace.
+    line up one-to-one with the effective trace;
+  * TIME passes only when the schedule says so: a ("tick", d) entry advances the virtual clock by d ticks while
+    every body stays suspended where it is (the run's event loop never lets time pass by itself, see sfimpl.SfLoop),
+    so the age of an execution in flight when a caller arrives is under the schedule's control.
 
 Schedule entries:
-    int i                 choice point (for `enumerate_schedules`): with p parked entities and q cancellable
-                          callers (only while the cancel budget lasts) i < p releases the i-th parked entity,
-                          p <= i < p+q cancels the (i-p)-th cancellable caller
+    int i                 choice point (for `enumerate_schedules`): with p parked entities, q cancellable
+                          callers (only while the cancel budget lasts) and r tick sizes (only while the tick budget
+                          lasts) i < p releases the i-th parked entity, p <= i < p+q cancels the (i-p)-th cancellable
+                          caller, p+q <= i < p+q+r lets tick_sizes[i-p-q] ticks pass
     ("go", [ids])         release these entities together, in this order (those not parked are skipped)
     ("cancel", c)         cancel caller c (skipped if it is already done)
+    ("tick", d)           d ticks of virtual time pass (d >= 1)
 Exhausted schedule: release the lowest parked entity.
-Effective trace (`self.eff`): ("go", [ids]) | ("cancel", c), exactly what was done.
+Effective trace (`self.eff`): ("go", [ids]) | ("cancel", c) | ("tick", d), exactly what was done.
 """
 from __future__ import annotations
 
 import asyncio
 from typing import Any, Awaitable, Callable
 
+from . import vtime
 from .sched import TASK_ID, Sched
 
 
@@ -32,9 +38,11 @@ def _tid(x):
 
 
 class SfSched(Sched):
-    def __init__(self, schedule=(), cancel_budget: int = 0):
+    def __init__(self, schedule=(), cancel_budget: int = 0, tick_budget: int = 0, tick_sizes=()):
         super().__init__(schedule)
         self.cancel_budget = cancel_budget
+        self.tick_budget = tick_budget
+        self.tick_sizes = [int(d) for d in tick_sizes if int(d) >= 1]
         self.eff: list[tuple] = []
         self.obs: list[Any] = []
         self.stuck = False
@@ -103,7 +111,8 @@ class SfSched(Sched):
                 e = 0
             if isinstance(e, int):
                 canc = self._cancellable() if self.cancel_budget > 0 else []
-                n = len(ids) + len(canc)
+                ticks = self.tick_sizes if self.tick_budget > 0 else []
+                n = len(ids) + len(canc) + len(ticks)
                 if n == 0:
                     self.stuck = True          # live callers, nothing to release, nothing to cancel
                     break
@@ -119,9 +128,21 @@ class SfSched(Sched):
                 i = e % n
                 if i < len(ids):
                     e = ("go", [ids[i]])
-                else:
+                elif i < len(ids) + len(canc):
                     e = ("cancel", canc[i - len(ids)])
+                else:
+                    self.tick_budget -= 1
+                    e = ("tick", ticks[i - len(ids) - len(canc)])
             kind = e[0]
+            if kind == "tick":
+                d = int(e[1])
+                if d < 1:
+                    continue
+                vtime.CLOCK.advance(d)
+                self.eff.append(("tick", d))
+                if self.log is not None:
+                    self.log(("tick", d))
+                continue
             if kind == "cancel":
                 c = e[1]
                 t = self.callers.get(c)
